@@ -898,11 +898,16 @@ class OneToOne(dict):
             for val in dict_or_iterable.values():
                 hash(val)
                 keys_vals = list(dict_or_iterable.items())
+        elif callable(getattr(dict_or_iterable, 'keys', None)):
+            keys_vals = [(key, dict_or_iterable[key])
+                         for key in dict_or_iterable.keys()]
+            for key, val in keys_vals:
+                hash(val)
         else:
-            for key, val in dict_or_iterable:
+            keys_vals = list(dict_or_iterable)
+            for key, val in keys_vals:
                 hash(key)
                 hash(val)
-                keys_vals = list(dict_or_iterable)
         for val in kw.values():
             hash(val)
         keys_vals.extend(kw.items())
